@@ -72,6 +72,7 @@ FailsExt(r, k) ==
              new == Pairs(r.snaps[k])
              ax == r.aux[k]
          IN  Unless(r.cyc[k - 1] = k - 1, "X.cycle")
+             \cup Unless(r.nerr[k - 1] = <<k - 2, k - 2>>, "X.rates")      \* one rate and one difference per completed cycle of THIS run
              \cup Unless(Len(prev) = 0 \/ LeaderOK(<<r.lead[k - 1][1], r.lead[k - 1][2]>>, prev), "X.leader")
              \cup Unless(~r.slotwise \/ Slotwise([j \in DOMAIN prev |-> prev[j][2]], [j \in DOMAIN new |-> new[j][2]]), "X.slotwise")
              \cup Unless(ax.kind # "greywolf" \/ GreyWolfOK(Pairs(ax.a), new), "X.greywolf")
